@@ -1180,6 +1180,9 @@ class Executor:
             # token streams as objects: each `TokenStream::new()` gets an identity, so that where a stream ends up can be followed
             self.fresh += 1
             val = Opaque(("call", "TokenStream::new", ("#%d" % self.fresh,)), dty)
+        if short in getattr(self, "sym_returns", ()):
+            # the result of this callee is an input of the obligation: a symbolic value of the declared type, rooted at the given name
+            val = Sym((self.sym_returns[short],), dty)
         if dty and dty.strip() == "bool" and short in getattr(self, "pure_fns", ()):
             # an uninterpreted predicate of its arguments: the same call answers the same
             val = self.bvar("pure:%s(%s)" % (short, ",".join(self.summ(state, a)[:80] for a in args)))
@@ -1818,6 +1821,9 @@ def iter_next_alts(ex, state, it):
                         inner = IterL(inner.items)
                     elif isinstance(inner, Agg) and inner.kind == "adt" and inner.name == "Option":
                         inner = IterL(inner.fields[:1] if inner.variant == "Some" else [])
+                    elif isinstance(inner, Agg) and inner.kind == "adt" and inner.name == "Result":
+                        # `Result: IntoIterator` yields the Ok value and silently nothing for Err
+                        inner = IterL(inner.fields[:1] if inner.variant == "Ok" else [])
                     if not isinstance(inner, (IterS, IterL, FMap, FlatMap)):
                         raise Inconclusive("flat_map closure returned %r" % (inner,))
                     todo.append((st2, outer1, inner, depth + 1))
